@@ -368,6 +368,17 @@ theorem needSep_before_dot :
     (∀ n, needSep (.param n) .dot = false) ∧ needSep (.punct ')') .dot = false := by
   refine ⟨?_, ?_, ?_, ?_⟩ <;> intros <;> simp [needSep, spellTok, canFollow, punctFollow] <;> decide
 
+/-- The operator `-` in front of any well-formed token: no rule extends a `-` (there is no
+`--`, `-=`, `->` token), so the sign of an integer literal may touch its digits (`-5`) and two
+minus signs may touch each other (`1--5`). -/
+theorem needSep_minus (next : Tok) (h : TokWF next) : needSep (.op "-") next = false :=
+  needSep_free _ _ (fun _ => by simp [canFollow, opFollow]) (fun _ => Tok.noConfusion)
+    (spellTok_ne_nil next h)
+
+/-- The sign and the digits of a signed integer literal. -/
+theorem needSep_minus_int (ds : List Char) (h : TokWF (.int ds)) : needSep (.op "-") (.int ds) = false :=
+  needSep_minus _ h
+
 /-! ## `needSep = false`: the junctions of the printed style, read back via `lex_spellWith` -/
 
 example : lex "right(".toList = some [.ident "right", .punct '('] :=
@@ -394,6 +405,28 @@ example : lex "check ifx(1a-2<3)<length:true".toList =
     some [.keyword "check if", .ident "x", .punct '(', .int ['1'], .ident "a", .op "-", .int ['2'],
       .op "<", .int ['3'], .punct ')', .op "<", .func "length", .punct ':', .bool true] :=
   lex_of_layout _ [] [] _ (by decide) rfl (by decide) (by decide)
+/-- Signed integer literals: the sign is the Operator token `-`; `-5` (what the library prints)
+and `- 5` are the same two tokens; a binary minus in front of a signed literal, with blanks
+(`1 - -5`, the printed style) and without (`1--5`: `--` is two `-` tokens, there is no `--`
+operator); after `(`, `[`, `,`, `!` and an operator no blank is needed. -/
+example : lex "-5".toList = some [.op "-", .int ['5']] :=
+  lex_of_layout _ [] [] _ (by decide) rfl (by decide) (by decide)
+example : lex "- 5".toList = some [.op "-", .int ['5']] :=
+  lex_of_layout _ [] [[' ']] _ (by decide) rfl (by decide) (by decide)
+example : lex "1 - -5".toList = some [.int ['1'], .op "-", .op "-", .int ['5']] :=
+  lex_of_layout _ [] [[' '], [' '], []] _ (by decide) rfl (by decide) (by decide)
+example : lex "1--5".toList = some [.int ['1'], .op "-", .op "-", .int ['5']] :=
+  lex_of_layout _ [] [] _ (by decide) rfl (by decide) (by decide)
+example : lex "f(-1,[-2,-3],!-4*-5)".toList =
+    some [.ident "f", .punct '(', .op "-", .int ['1'], .punct ',', .punct '[', .op "-", .int ['2'],
+      .punct ',', .op "-", .int ['3'], .punct ']', .punct ',', .punct '!', .op "-", .int ['4'],
+      .op "*", .op "-", .int ['5'], .punct ')'] :=
+  lex_of_layout _ [] [] _ (by decide) rfl (by decide) (by decide)
+/-- …but `<` directly in front of the sign is the arrow `<-` (`needSep (.op "<") (.op "-") = true`):
+the printed style writes `$x < -5`. -/
+example : needSep (.op "<") (.op "-") = true ∧
+    lex "$x<-5".toList = some [.var "x", .arrow, .int ['5']] ∧
+    lex "$x < -5".toList = some [.var "x", .op "<", .op "-", .int ['5']] := by decide +kernel
 /-- Gaps may be any mixture of blanks, also in front of the first and after the last token. -/
 example : lex " \n\tallow if \t\r\n true;\n".toList = some [.keyword "allow if", .bool true, .punct ';'] :=
   lex_of_layout _ " \n\t".toList [" \t\r\n ".toList, [], ['\n']] _ (by decide) (by decide) (by decide)
